@@ -1,11 +1,14 @@
 """C11 — Buffering grows a geometry and never leaves the valid domain."""
+import copy
 import itertools
+import json
 import math
 import re
 import zlib
 from fractions import Fraction
 
 from ..core import Op, jkey
+from .. import history
 from ..leanio import InfraError
 from ..rat import rat, frac, round_once_eq, tol_eq
 from .. import symx
@@ -21,7 +24,9 @@ THEOREMS = [_T + n for n in [
     "C11_shapely_partial",
     "C11_pipeline_contracts_ideal", "C11_pipeline_scaling", "C11_pipeline_in_domain", "C11_pipeline_clip_is_domain",
     "C11_pipeline_contains", "C11_pipeline_covers_buffers", "C11_pipeline_exact_ideal", "C11_pipeline_monotone_ideal",
-    "C11_pipeline_zero_vs_tiny_buffer", "C11_pipeline_bounds_extend"]]
+    "C11_pipeline_zero_vs_tiny_buffer", "C11_pipeline_bounds_extend",
+    "C11_pipeline_probe", "C11_pipeline_bounds_extend_sides", "C11_offcap_vertex", "C11_offcap_all",
+    "C11_call_binding", "C11_signature_table", "C11_history_stepwise", "C11_closed_ignores_options"]]
 LEVEL_TEXT = ("Lean theorems over the model of buffer_geometry: for time stamps, intervals and boxes the result is exactly the "
               "interval / box widened by the buffers with the clamps at time 0, frequency 0 and MAX_FREQUENCY; it is valid, "
               "contains the original as a point set, is exactly the widened extent inside the domain, its bounds extend by the "
@@ -38,7 +43,14 @@ LEVEL_TEXT = ("Lean theorems over the model of buffer_geometry: for time stamps,
               "widths of the original and its bounds extend by rho buffers or reach the domain edge (if GEOS's buffer contains "
               "the rho-disc around every input point), and - for the exact unit buffer - that the result is exactly the "
               "elliptical neighbourhood inside the domain and that larger buffers give supersets except a zero buffer against "
-              "a positive one below 1e-9 (proved to fail; a known finding).  The property stays PARTIAL for these six types: "
+              "a positive one below 1e-9 (proved to fail; a known finding).  The bounds are also derived side by side "
+              "(C11_pipeline_bounds_extend_sides) from one probe point per side in GEOS's buffer, so that a side whose extreme "
+              "no open line end attains or comes near (offCap; C11_offcap_vertex, C11_offcap_all) is judged up to offset-curve "
+              "noise (1e-5 of the buffer) and only sides at an open line end with the round-cap allowance.  How the two buffers "
+              "bind for every way of writing the call (positional, keyword in either order, mixed, omitted) is proved of the "
+              "signature table (C11_call_binding, C11_signature_table; the table is regenerated from inspect.signature on each "
+              "run), and a session of calls is the list of its calls' models whatever options for shapely.buffer earlier calls "
+              "carried (C11_history_stepwise, C11_closed_ignores_options).  The property stays PARTIAL for these six types: "
               "GEOS's buffer itself is not modelled; its contracts are evaluated on GEOS's actual output in every run, and "
               "validator, bounds post-condition (C11_shapely_partial), containment and superset are monitored on the result.")
 LEVEL_NOTE = ("Trusted: Lean kernel, symbolic tracer (ordered-field semantics; the nine geometry classes replaced by stubs that "
@@ -48,33 +60,58 @@ LEVEL_NOTE = ("Trusted: Lean kernel, symbolic tracer (ordered-field semantics; t
               "simplification) and clip_by_rect as polygon algorithms, binary64 rounding inside the pipeline: the theorems "
               "assume `Extensive`, `CoversDisc rho`, `IsMaxTime`, evaluated per call on what GEOS returned (rho = 0.98 at probe "
               "points around the vertices) for inputs outside the known-finding classes; containment / superset by shapely "
-              "`covers` (an oracle outside Lean); six classes of failures of the pipeline are recorded as known findings.  "
+              "`covers` (an oracle outside Lean, applied to geometries shapely builds from the JSON coordinates, not to "
+              "soundevent's converters); the probe hypotheses of C11_pipeline_bounds_extend_sides are evaluated at rho = "
+              "1 - 2e-5 / 0.995 on GEOS's buffer; six classes of failures of the pipeline are recorded as known findings (the "
+              "round-cap one now only for sides at an open line end).  Histories are sequences of calls in one process judged "
+              "call by call; a failing history is re-run in a fresh process before it is reported.  "
               "Binary64 rounding of `t - tb`, `h + fb` off the dyadic grid (round-once comparison there).  Model tied to the "
               "code by regenerated obligations, observed calls into shapely and generator-bounded correspondence.")
 TECHNIQUE = ("Lean 4 proof over model; symbolic-trace equality obligations regenerated from source (closed forms, dispatch, "
-             "pipeline skeleton); exhaustive-grid correspondence at the domain edges; observed shapely calls compared with the "
-             "model; Lean-evaluated post-conditions and run-time GEOS contracts on real results")
+             "pipeline skeleton); signature table regenerated by introspection; exhaustive-grid correspondence at the domain "
+             "edges and around every comparison; observed shapely calls compared with the model; Lean-evaluated post-conditions "
+             "and run-time GEOS contracts on real results; call histories judged step by step by the pure model")
 RULE = ("time stamps / intervals / boxes on exhaustive small grids touching time 0, frequency 0 and MAX_FREQUENCY x buffers "
         "{negative, 0, small, clamping, larger than the domain}, random dyadic and arbitrary-float cases; the six shapely-"
         "buffered types (random, special, domain-edge) x buffer pairs over six decades of buffer/extent, zero buffers, buffers "
         "down to 1e-7; buffers passed as float, int or numpy scalar; every call preceded by a call on the same object with "
-        "other buffers and followed by a repeat (purity); non-trivial = buffer_geometry returned a geometry; distinct = "
-        "distinct (operation, input)")
+        "other buffers and followed by a repeat (purity); buffers -d, 0, +d (d = 2^-40 .. 5e-324) on all nine types and "
+        "start - tb, low - fb, high + fb within 2^-20 .. 2^-40 of 0 / MAX_FREQUENCY at magnitudes 1 .. 1e7; every point of the "
+        "0.01 s / 0.1 Hz buffer lattices; dense geometries with 16 .. 2000 vertices (each size threshold +-1) x seven smooth "
+        "shapes; nine types x call shapes (keyword, positional, reversed keywords, mixed, zero buffers omitted) x number "
+        "representations (float, int, numpy float64 / float32 / int64, bool) x twelve construction paths (validator, "
+        "constructor, model_validate, JSON, copies, tuples, ints, numpy coordinates, subclass); histories: a call with an "
+        "option for shapely.buffer followed by plain calls (8 options x 6 target types), and random sessions x, neighbour of x "
+        "(other buffers / zero buffer / options / other call shape / other geometry), x again with reused argument objects "
+        "(assignment, model_copy(update), in-place edit, copy + assignment), poisoned results and earlier results re-read at "
+        "the end; non-trivial = buffer_geometry returned a geometry; distinct = distinct (operation, input)")
 TRUSTED = ["pydantic's coercion of the coordinate list before the field validators run (the validators themselves are traced)",
            "shapely `covers` / `difference` / `distance` / `contains_xy` as the containment, superset and disc-contract oracle",
            "symbolic tracer stubs: data.<Geometry> -> record of the (validated) symbolic coordinates; geometry_to_shapely + "
            "buffer_shapely_geometry -> marker carrying the two buffers (dispatch trace); shapely.transform / buffer / "
            "clip_by_rect / to_geojson, json.loads -> stand-ins acting on a generic point and a bounding box (pipeline trace; "
            "a coordinate map is applied to the box corners, right for the increasing maps C11_pipeline_scaling proves them to be)",
-           "the spy around the `shapely` module seen by soundevent.geometry.operations (forwards every call unchanged)"]
+           "the spy around the `shapely` module seen by soundevent.geometry.operations (forwards every call unchanged)",
+           "during the dispatch traces symbolic numbers are hashable, `json.dumps` serialises them as their terms and the "
+           "module-level containers of operations.py are put back before every replay (a trace describes a call in a fresh "
+           "process; later calls are the business of the purity monitors and the histories)",
+           "shapely.geometry.shape / box as the constructor of the oracle geometries from JSON coordinates",
+           "the fresh Python process in which a failing history is re-run (harness/c11_fresh.py)"]
 ASSUMPTIONS = ["binary64 arithmetic is exact on the dyadic grids used",
                "ordered-field semantics for the symbolic ties (no rounding)",
                "hypotheses of C11_shapely_partial (result is a Polygon / MultiPolygon, passes the validator, its bounds satisfy "
                "bufferPost) are evaluated in Lean on every observed result of the pipeline",
                "hypotheses of the C11_pipeline_* theorems about GEOS's buffer (Extensive, CoversDisc 49/50 at 32 probe "
                "directions around up to 8 vertices, IsMaxTime) are evaluated on GEOS's output in every observed call with "
-               "positive buffers, no exact line reversal, buffer/extent < 1e4"]
+               "positive buffers, no exact line reversal, buffer/extent < 1e4",
+               "hypotheses p1..p4 of C11_pipeline_bounds_extend_sides (GEOS's buffer contains the point rho beyond a vertex "
+               "attaining each side's extreme, rho = 1 - 2e-5 where offCap holds, 0.995 otherwise) are evaluated in the same calls",
+               "GEOS's offset curves deviate from the exact mitre outline by at most 1e-5 of the distance away from open line "
+               "ends (observed <= 4e-7; its vertex snapping factor is 1e-6)"]
 NOT_COMPARED = ["error messages (only the error class)",
+                "what a call with extra options for shapely.buffer returns on the six pipeline types (the caller's choice; some "
+                "options are refused with TypeError) beyond: a returned geometry is valid, the argument is untouched, later "
+                "calls are unaffected",
                 "the vertices of the polygon the shapely pipeline returns (only validator, bounds, containment, superset)",
                 "OGC validity of the returned polygon",
                 "cap / join style and the margin added to max_time in the clip rectangle (only that it is >= 0)",
@@ -93,7 +130,57 @@ def _f(s):
     return float(frac(s))
 
 
+# ---------------------------------------------------------------- independent oracles (nothing from the code under test)
+def _pts_of(gj):
+    """every (time, frequency) vertex of a JSON geometry as exact rationals"""
+    ty, c = gj["type"], gj["coordinates"]
+    if ty == "TimeStamp":
+        return [(frac(c), Fraction(0)), (frac(c), Fraction(M))]
+    if ty == "TimeInterval":
+        return [(frac(c[0]), Fraction(0)), (frac(c[1]), Fraction(M))]
+    if ty == "BoundingBox":
+        return [(frac(c[0]), frac(c[1])), (frac(c[2]), frac(c[3]))]
+    if ty == "Point":
+        return [(frac(c[0]), frac(c[1]))]
+    out = []
+
+    def walk(x):
+        if isinstance(x, list) and len(x) == 2 and isinstance(x[0], str):
+            out.append((frac(x[0]), frac(x[1])))
+        else:
+            for y in x:
+                walk(y)
+    walk(c)
+    return out
+
+
+def _bounds_of(gj):
+    """(start, low, end, high) of a JSON geometry, computed on the rationals it carries"""
+    ps = _pts_of(gj)
+    return (min(p[0] for p in ps), min(p[1] for p in ps), max(p[0] for p in ps), max(p[1] for p in ps))
+
+
+def _shp(gj):
+    """the shapely geometry of a JSON geometry, built by shapely itself (not by soundevent's converters)"""
+    import shapely.geometry as sg
+    ty = gj["type"]
+    c = gen_geom.coords_float(gj)
+    if ty == "TimeStamp":
+        return sg.LineString([(c, 0.0), (c, float(M))])
+    if ty == "TimeInterval":
+        return sg.box(c[0], 0.0, c[1], float(M))
+    if ty == "BoundingBox":
+        return sg.box(c[0], c[1], c[2], c[3])
+    return sg.shape({"type": ty, "coordinates": c})
+
+
 # ---------------------------------------------------------------- implementation adapters
+NAMES = {"tb": "time_buffer", "fb": "freq_buffer"}
+SHAPES = ("kw", "pos", "kwrev", "mixed", "omit")
+NUMS = ("float", "int", "np64", "np32", "npint", "bool")
+PATHS = ("validate", "ctor", "mv", "json", "jsonrt", "copy", "deepcopy", "pycopy", "tuple", "intcoords", "npcoords", "subclass")
+
+
 def _arg(inp, key, salt):
     """the buffer as the caller may pass it: float, int (when integral) or numpy scalar -- chosen from the whole
     input, so a replay passes the same representation and the same value is seen in all of them over a run"""
@@ -107,20 +194,124 @@ def _arg(inp, key, salt):
     return float(q)
 
 
-def _call(d, inp, k1="tb", k2="fb"):
+def _repr_num(q, kind):
+    """the number `q` in the representation `kind` if it has one there (else as a float)"""
+    import numpy as np
+    x = float(q)
+    if kind == "int" and q.denominator == 1:
+        return int(q)
+    if kind == "npint" and q.denominator == 1 and abs(q) < 2 ** 62:
+        return np.int64(int(q))
+    if kind == "bool" and q in (0, 1):
+        return bool(q)
+    if kind == "np64":
+        return np.float64(x)
+    if kind == "np32" and float(np.float32(x)) == x:
+        return np.float32(x)
+    return x
+
+
+def _shape(inp):
+    """the call as the caller writes it: (keys passed by position, keys passed by keyword in that order)"""
+    sh = (inp.get("how") or {}).get("shape", "kw")
+    tz, fz = frac(inp["tb"]) == 0, frac(inp["fb"]) == 0
+    if sh == "pos":
+        return ["tb", "fb"], []
+    if sh == "kwrev":
+        return [], ["fb", "tb"]
+    if sh == "mixed":
+        return ["tb"], ["fb"]
+    if sh == "omit":          # a zero buffer is the default: leave it out
+        if tz and fz:
+            return [], []
+        if fz:
+            return ["tb"], []
+        if tz:
+            return [], ["fb"]
+        return ["tb"], ["fb"]
+    return [], ["tb", "fb"]
+
+
+def _model_call(inp):
+    """the same call for the model: positional values and keyword values, bound by `boundBuffers bufferSig`"""
+    if not inp.get("how"):
+        return {"tb": inp["tb"], "fb": inp["fb"]}
+    pos, kw = _shape(inp)
+    return {"pos": [inp[k] for k in pos], "kw": [[NAMES[k], inp[k]] for k in kw]}
+
+
+def _call(d, inp, k1="tb", k2="fb", opts=None):
     from soundevent.geometry import buffer_geometry
-    return buffer_geometry(d, time_buffer=_arg(inp, k1, "t"), freq_buffer=_arg(inp, k2, "f"))
+    how = inp.get("how")
+    opts = dict(opts or {})
+    if not how:
+        return buffer_geometry(d, time_buffer=_arg(inp, k1, "t"), freq_buffer=_arg(inp, k2, "f"), **opts)
+    val = {"tb": _repr_num(frac(inp[k1]), how.get("nt", "float")), "fb": _repr_num(frac(inp[k2]), how.get("nf", "float"))}
+    pos, kw = _shape({"how": how, "tb": inp[k1], "fb": inp[k2]})
+    return buffer_geometry(d, *[val[k] for k in pos], **{NAMES[k]: val[k] for k in kw}, **opts)
+
+
+def _conv(c, leaf, seq=list):
+    if isinstance(c, (list, tuple)):
+        return seq(_conv(x, leaf, seq) for x in c)
+    return leaf(c)
+
+
+def _build_geom(gj, path=None):
+    """the data object of a JSON geometry, built the way `path` says (None: the validator on a dict)"""
+    from soundevent import data
+    import numpy as np
+    ty, c = gj["type"], gen_geom.coords_float(gj)
+    if path in (None, "validate"):
+        return data.geometry_validate({"type": ty, "coordinates": c}, mode="dict")
+    cls = getattr(data, ty)
+    if path == "ctor":
+        return cls(coordinates=c)
+    if path == "mv":
+        return cls.model_validate({"type": ty, "coordinates": c})
+    if path == "json":
+        return cls.model_validate_json(json.dumps({"type": ty, "coordinates": c}))
+    if path == "jsonrt":
+        return cls.model_validate_json(cls(coordinates=c).model_dump_json())
+    if path == "copy":
+        return cls(coordinates=c).model_copy()
+    if path == "deepcopy":
+        return cls(coordinates=c).model_copy(deep=True)
+    if path == "pycopy":
+        return copy.deepcopy(cls(coordinates=c))
+    if path == "tuple":
+        return cls(coordinates=_conv(c, float, tuple))
+    if path == "intcoords":
+        return cls(coordinates=_conv(c, lambda x: int(x) if float(x).is_integer() else x))
+    if path == "npcoords":
+        return cls(coordinates=_conv(c, np.float64))
+    if path == "subclass":
+        return type("My" + ty, (cls,), {})(coordinates=c)
+    raise ValueError(f"unknown construction path {path}")
+
+
+def _geom(inp):
+    """the argument object of a case; it must carry exactly the content of the case (else the case is void)"""
+    path = (inp.get("how") or {}).get("path")
+    d = _build_geom(inp["g"], path)
+    if path and gen_geom.from_data(d) != inp["g"]:
+        raise _Void(f"construction path {path} does not yield the geometry of the case")
+    return d
+
+
+class _Void(Exception):
+    """the harness could not build the case (never the verdict of the code under test)"""
 
 
 def _buffer(inp):
-    return _call(gen_geom.to_data(inp["g"]), inp)
+    return _call(_geom(inp), inp)
 
 
 def _pure_call(inp, spy=False):
     """buffer the same object with other buffers first, then the call that is judged (optionally observing the
     calls into shapely), then look at the argument again and buffer it once more: the function must not modify
     its argument nor remember anything"""
-    d = gen_geom.to_data(inp["g"])
+    d = _geom(inp)
     before = gen_geom.from_data(d)
     try:        # a first call on the same object with other buffers: nothing of it may show in the call that is judged
         _call(d, {"tb": rat(frac(inp["tb"]) + 1), "fb": rat(frac(inp["fb"]) + 2)})
@@ -144,12 +335,23 @@ def _pure_call(inp, spy=False):
     return d, r, out, sp
 
 
+def _voidable(impl):
+    """a case the harness cannot build (e.g. a construction path the data model does not offer) is void, not a verdict"""
+    def wrapped(inp):
+        try:
+            return impl(inp)
+        except _Void as e:
+            return {"void": str(e)}
+    return wrapped
+
+
 def _impl_closed(inp):
     return _pure_call(inp)[2]
 
 
 _LIB_CACHE = {}
 _PIPE_CACHE = {}
+_GEOS_CACHE = {}     # jkey(inp) -> (scaled input, GEOS's buffer of it) of the observed call, for the probe contract
 
 
 def _uncovered(outer, inner, sx, sy):
@@ -223,7 +425,6 @@ def _observe(sp, r):
     evaluated on what GEOS returned; None if the calls were not of the expected shape (nothing is concluded)"""
     import numpy as np
     import shapely
-    from soundevent.geometry import geometry_to_shapely
     if sp is None or len(sp.buffers) != 1 or len(sp.clips) != 1 or len(sp.transforms) != 2:
         return None
     (T0, f1, T), (Tb, dist, B), (B0, f2, U), (Uc, rect, C) = sp.transforms[0], sp.buffers[0], sp.transforms[1], sp.clips[0]
@@ -234,7 +435,7 @@ def _observe(sp, r):
     obs = {"scaled": [rat(sc[0]), rat(sc[1])], "dist": rat(dist), "unscaled": [rat(un[0]), rat(un[1])],
            "rect": [rat(x) for x in rect], "qm": rat(B.bounds[2]) if not B.is_empty else None,
            "max_time": rat(U.bounds[2]) if not U.is_empty else None,
-           "returned_clipped": bool(geometry_to_shapely(r).equals(C))}
+           "returned_clipped": bool(_shp(gen_geom.from_data(r)).equals(C))}
     con = {}
     if not B.is_empty:
         con["extensive"] = bool(B.covers(T))
@@ -248,18 +449,21 @@ def _observe(sp, r):
         con["covers_disc"] = bool(shapely.contains_xy(B, px, py).all())
         con["scaled_magnitude"] = float(np.abs(v).max())
     obs["contracts"] = con
+    obs["_geos"] = (T, B)
     return obs
 
 
 def _impl_shapely(inp):
-    from soundevent.geometry import geometry_to_shapely
     d, r, out, sp = _pure_call(inp, spy=True)
     _LIB_CACHE[jkey(inp)] = out["val"]
     try:
-        _PIPE_CACHE[jkey(inp)] = _observe(sp, r)
+        obs = _observe(sp, r)
+        if obs is not None:
+            _GEOS_CACHE[jkey(inp)] = obs.pop("_geos")
+        _PIPE_CACHE[jkey(inp)] = obs
     except Exception:  # noqa: BLE001 - an observation that cannot be made concludes nothing
         _PIPE_CACHE[jkey(inp)] = None
-    out["uncovered"] = repr(_uncovered(geometry_to_shapely(r), geometry_to_shapely(d), _f(inp["tb"]), _f(inp["fb"])))
+    out["uncovered"] = repr(_uncovered(_shp(out["val"]), _shp(inp["g"]), _f(inp["tb"]), _f(inp["fb"])))
     return out
 
 
@@ -272,11 +476,10 @@ def _impl_pipeline(inp):
 
 
 def _impl_monotone(inp):
-    from soundevent.geometry import geometry_to_shapely
-    d = gen_geom.to_data(inp["g"])
+    d = _geom(inp)
     r1 = _call(d, inp)
     r2 = _call(d, inp, "tb2", "fb2")
-    ex = _uncovered(geometry_to_shapely(r2), geometry_to_shapely(r1), _f(inp["tb2"]), _f(inp["fb2"]))
+    ex = _uncovered(_shp(gen_geom.from_data(r2)), _shp(gen_geom.from_data(r1)), _f(inp["tb2"]), _f(inp["fb2"]))
     return {"val": {"excess": repr(ex)}}
 
 
@@ -302,6 +505,8 @@ def _flat(c):
 
 
 def _cmp_closed_free(inp, io, mo):
+    if io.get("void"):
+        return None
     if io.get("impure"):
         return io["impure"]
     if "val" not in io or "val" not in mo:
@@ -318,16 +523,28 @@ def _cmp_closed_free(inp, io, mo):
     return None
 
 
+def _cmp_closed(inp, io, mo):
+    if io.get("void"):
+        return None
+    a = {k: v for k, v in io.items() if k != "trace"}
+    return None if a == mo else "implementation and model disagree"
+
+
 def _cmp_shapely(inp, io, mo):
+    if io.get("void"):
+        return None
     a = {k: v for k, v in io.items() if k not in ("trace", "uncovered", "impure")}
     return None if a == mo else "guard / dispatch of buffer_geometry disagrees with the model"
 
 
 def _post(ctx, inp, r):
-    return ctx.model("shapely_post", {"g": inp["g"], "tb": inp["tb"], "fb": inp["fb"], "r": r, "tol": TOL})["val"]
+    return ctx.model("shapely_post", {"g": inp["g"], "tb": inp["tb"], "fb": inp["fb"], "r": r, "tol": TOL, "mu": END_MARGIN})["val"]
 
 
 def _holds_closed(ctx, inp, io):
+    if io.get("void"):
+        ctx.tally("void-case")
+        return None
     neg = frac(inp["tb"]) < 0 or frac(inp["fb"]) < 0
     if neg:
         return None if io.get("raise") == "invalid" else "a negative buffer was not rejected with ValueError"
@@ -345,20 +562,18 @@ def _holds_closed(ctx, inp, io):
 
 def _ratio(inp):
     """largest buffer / extent over the axes on which the geometry has an extent"""
-    from soundevent.geometry import compute_bounds
-    b = compute_bounds(gen_geom.to_data(inp["g"]))
+    b = _bounds_of(inp["g"])
     out = 0.0
-    for ext, buf in ((b[2] - b[0], _f(inp["tb"])), (b[3] - b[1], _f(inp["fb"]))):
+    for ext, buf in ((b[2] - b[0], frac(inp["tb"])), (b[3] - b[1], frac(inp["fb"]))):
         if ext > 0 and buf > 0:
-            out = max(out, buf / ext)
+            out = max(out, float(buf / ext))
     return out
 
 
 def _zero_axis_max(inp):
     """largest coordinate along the axes whose buffer is exactly zero (these are multiplied by 1e9)"""
-    from soundevent.geometry import compute_bounds
-    b = compute_bounds(gen_geom.to_data(inp["g"]))
-    return max([b[2]] * (frac(inp["tb"]) == 0) + [b[3]] * (frac(inp["fb"]) == 0) + [0.0])
+    b = _bounds_of(inp["g"])
+    return float(max([b[2]] * (frac(inp["tb"]) == 0) + [b[3]] * (frac(inp["fb"]) == 0) + [Fraction(0)]))
 
 
 def _has_reversal(gj):
@@ -374,7 +589,14 @@ def _has_reversal(gj):
     return False
 
 
+OFFCAP_NOISE = Fraction(1, 10 ** 5)    # GEOS's offset curves carry noise of ~1e-6 of the distance (its vertex snapping factor)
+END_MARGIN = "1/100"                   # an open line end this close (in buffers) to a side's extreme puts its round cap there
+
+
 def _holds_shapely(ctx, inp, io):
+    if io.get("void"):
+        ctx.tally("void-case")
+        return None
     tb, fb = frac(inp["tb"]), frac(inp["fb"])
     if tb < 0 or fb < 0:
         return None if io.get("raise") == "invalid" else "a negative buffer was not rejected with ValueError"
@@ -394,11 +616,16 @@ def _holds_shapely(ctx, inp, io):
         return f"result does not contain the original; uncovered={unc:.3e} buffer widths; {facts}"
     if not p.get("post"):
         sf = max(float(frac(x)) for x in p["shortfall"])
-        return f"bounds of the result do not extend the original's by the buffers; max_shortfall={sf:.6e}; {facts}"
+        # sides whose extreme no end of an open line attains or comes near (no round cap there): shortfall beyond the slack
+        osf = max([float(frac(x)) for x, off in zip(p["shortfall_net"], p["offcap"]) if off] + [0.0])
+        return (f"bounds of the result do not extend the original's by the buffers; max_shortfall={sf:.6e} "
+                f"offcap_shortfall={osf:.6e}; {facts}")
     return None
 
 
 def _holds_monotone(ctx, inp, io):
+    if io.get("void"):
+        return None
     if "val" not in io:
         return f"buffer_geometry raised {io.get('raise')}; type={inp['g']['type']}"
     ex = float(io["val"]["excess"])
@@ -466,7 +693,49 @@ def _holds_pipeline(ctx, inp, io):
                      "GEOS's buffer of the scaled geometry does not contain it (hypothesis `Extensive`)")
         ctx.contract("geos_buffer_covers_disc", con["covers_disc"], inp, con,
                      f"GEOS's buffer misses a point within {RHO} of a vertex (hypothesis `CoversDisc {RHO}`)")
+        pr = _axis_probes(ctx, inp, obs)
+        if pr is not None:
+            ctx.contract("geos_buffer_covers_axis_probes", all(pr["covered"]), inp, pr,
+                         "GEOS's buffer misses the point rho buffers beyond an extreme vertex along an axis (hypotheses p1..p4 of "
+                         f"`C11_pipeline_bounds_extend_sides`, rho = {RHO_JOINT} off the ends of open lines, {RHO_CAP} at them)")
+    _GEOS_CACHE.pop(jkey(inp), None)
     return None
+
+
+RHO_JOINT = 1 - 2 * OFFCAP_NOISE      # mitre joins and the axis-aligned circles around points reach the full distance
+RHO_CAP = Fraction(199, 200)           # < cos(pi/32) = 0.99518: the round cap at the end of an open line is a 32-gon
+
+
+def _axis_probes(ctx, inp, obs):
+    """hypotheses p1..p4 of `C11_pipeline_bounds_extend_sides` on GEOS's actual buffer `B` of the scaled input `T`:
+    per side, the point rho beyond a vertex attaining the extreme (cut at the domain edge) lies in `B`; rho by
+    `offCap` (evaluated in Lean on the geometry of the case)"""
+    import numpy as np
+    import shapely
+    tb = _GEOS_CACHE.get(jkey(inp))
+    if tb is None:
+        return None
+    T, B = tb
+    off = ctx.model("offcap", {"g": inp["g"], "tb": inp["tb"], "fb": inp["fb"], "mu": END_MARGIN})["val"]["offcap"]
+    v = shapely.get_coordinates(T)
+    if len(v) == 0 or B.is_empty:
+        return None
+    ff = _f(obs["scaled"][1])                      # the observed frequency factor: MAXF in the scaled space
+    covered, rhos = [], []
+    for side, flag in enumerate(off):
+        ax, sign = side % 2, (-1.0 if side < 2 else 1.0)
+        ext = v[:, ax].min() if side < 2 else v[:, ax].max()
+        att = v[v[:, ax] == ext]
+        rho = float(RHO_JOINT if flag else RHO_CAP)
+        q = att.copy()
+        q[:, ax] = q[:, ax] + sign * rho
+        if side < 2:
+            q[:, ax] = np.maximum(q[:, ax], 0.0)
+        elif side == 3:
+            q[:, ax] = np.minimum(q[:, ax], float(M) * ff)
+        covered.append(bool(shapely.intersects_xy(B, q[:, 0], q[:, 1]).any()))
+        rhos.append(rho)
+    return {"covered": covered, "rho": rhos, "offcap": off}
 
 
 def _to_model_pipeline(inp):
@@ -476,7 +745,181 @@ def _to_model_pipeline(inp):
 
 
 def _to_model_shapely(inp):
-    return {"g": inp["g"], "tb": inp["tb"], "fb": inp["fb"], "lib": _LIB_CACHE.get(jkey(inp))}
+    return {"g": inp["g"], **_model_call(inp), "lib": _LIB_CACHE.get(jkey(inp))}
+
+
+# ---------------------------------------------------------------- histories (harness/history.py, HISTORIES.md)
+OPTIONS = [{"single_sided": True}, {"mitre_limit": "1/5"}, {"quad_segs": 1}, {"quad_segs": 16}, {"mitre_limit": "10"},
+           {"cap_style": "flat"}, {"join_style": "bevel"}, {"quad_segs": 2, "mitre_limit": "1"}]
+
+
+def _opts(inp):
+    """extra keyword arguments of a step (passed on to shapely.buffer by the six pipeline types)"""
+    out = {}
+    for k, v in (inp.get("opts") or {}).items():
+        if isinstance(v, str):
+            try:
+                q = frac(v)
+                v = int(q) if q.denominator == 1 else float(q)
+            except Exception:  # noqa: BLE001
+                pass
+        out[k] = v
+    return out
+
+
+def _h_build(inp):
+    try:
+        d = _geom(inp)
+    except _Void:
+        d = _build_geom(inp["g"])
+    return {"d": d, "inp": inp}
+
+
+def _h_call(args):
+    return _call(args["d"], args["inp"], opts=_opts(args["inp"]))
+
+
+def _h_canon(inp, args, res):
+    out = {"val": gen_geom.from_data(res)}
+    if inp["g"]["type"] in SHAPELY and not inp.get("opts"):
+        out["uncovered"] = repr(_uncovered(_shp(out["val"]), _shp(inp["g"]), _f(inp["tb"]), _f(inp["fb"])))
+    return out
+
+
+def _h_snapshot(args):
+    d = args["d"]
+    return [type(d).__name__, gen_geom.from_data(d)]
+
+
+H_REUSE = ("same", "assign", "copy_update", "deep_copy_update", "inplace", "pycopy_assign")
+
+
+def _h_modify(args, inp, how):
+    """the geometry object of the previous step, changed to carry this step's geometry (same type): by assignment,
+    model_copy(update=...), an in-place edit of its coordinate list, or a shallow copy that is then assigned to --
+    nothing the object (or the module) remembered from its earlier use may survive (geometries are not frozen)"""
+    d = args["d"]
+    if getattr(d, "type", None) != inp["g"]["type"]:
+        return None
+    c = gen_geom.coords_float(inp["g"])
+    if how == "same":
+        if gen_geom.from_data(d) != inp["g"]:
+            return None
+    elif how == "assign":
+        d.coordinates = c
+    elif how == "copy_update":
+        d = d.model_copy(update={"coordinates": c})
+    elif how == "deep_copy_update":
+        d = d.model_copy(update={"coordinates": c}, deep=True)
+    elif how == "inplace":
+        if isinstance(d.coordinates, list):
+            d.coordinates[:] = c
+        else:
+            d.coordinates = c
+    elif how == "pycopy_assign":
+        d = copy.copy(d)
+        d.coordinates = c
+    else:
+        return None
+    if gen_geom.from_data(d) != inp["g"]:
+        return None
+    return {"d": d, "inp": inp}
+
+
+def _h_poison(res):
+    """the caller edits what it got back (the returned geometry is the caller's): nothing may be shared with later calls"""
+    c = getattr(res, "coordinates", None)
+    if not isinstance(c, list) or not c:
+        return False
+    x = c
+    while isinstance(x[0], list):
+        x = x[0]
+    x[0] = 987654.0
+    if isinstance(c[0], list):
+        c.append(c[0])
+    return True
+
+
+def _known_in_base(ctx, op_name, inp, io, msg):
+    """the step fails exactly as a known finding of the base operation describes (reported there)"""
+    from .. import core
+    import sys
+    mod = sys.modules[__name__]
+    f = core.Failure("property", op_name, inp, io, None, msg)
+    return core.match_finding(mod, core.load_findings(PROPERTY), f) is not None
+
+
+def _holds_step(ctx, inp, io):
+    """one call of a history, judged on its own by the model of the base operation (C11_history_stepwise)"""
+    if io.get("void"):
+        return None
+    tb, fb = frac(inp["tb"]), frac(inp["fb"])
+    closed = inp["g"]["type"] in CLOSED
+    if inp.get("opts") and not closed and tb >= 0 and fb >= 0:
+        # options for shapely.buffer are the caller's choice: the property does not say what they give (and some are
+        # refused); whatever GEOS's buffer is, a returned geometry stays in the domain (C11_pipeline_in_domain)
+        if "val" in io and not ctx.model("valid", {"g": io["val"]})["val"]:
+            return "result is not a valid geometry (leaves the domain)"
+        return None
+    if closed:                # options are not passed on for these (C11_closed_ignores_options): fully determined
+        msg = _holds_closed(ctx, inp, io)
+        if msg:
+            return msg
+        mo = ctx.model("buffer", {"g": inp["g"], **_model_call(inp)})
+        return _cmp_closed(inp, io, mo)
+    msg = _holds_shapely(ctx, inp, io)
+    if msg:
+        if _known_in_base(ctx, "buffer_shapely", inp, io, msg):
+            ctx.tally("history:step-in-known-finding-class")
+            return None
+        return msg
+    mo = ctx.model("buffer", {"g": inp["g"], **_model_call(inp), "lib": io.get("val")})
+    return _cmp_shapely(inp, io, mo)
+
+
+_STEP = Op("buffer_step", None, to_model=lambda i: {"g": i["g"]}, compare=lambda i, a, b: None, holds=_holds_step,
+           model_op="valid", mode="tolerance")
+HISTORY_RAW = history.history_op("buffer_history", _STEP, _h_build, _h_call, _h_canon, snapshot=_h_snapshot,
+                                 modify=_h_modify, poison=_h_poison)
+_CONFIRM = {"tries": 0, "confirmed": 0}
+
+
+def _holds_history(ctx, h, io):
+    """a failing history is run again in a fresh process: its replay is the whole sequence and must fail on its own
+    (an earlier, unrelated history of this run may have left state behind in the module under test)"""
+    msg = HISTORY_RAW.holds(ctx, h, io)
+    if not msg:
+        return None
+    if _CONFIRM["confirmed"] >= 3:
+        ctx.tally("history:failed-after-confirmed-ones")
+        return None
+    if _CONFIRM["tries"] >= 8:
+        return "(not re-run in a fresh process) " + msg
+    _CONFIRM["tries"] += 1
+    try:
+        from ..c11_fresh import run_fresh
+        fresh = run_fresh(h)
+    except Exception as e:  # noqa: BLE001
+        return f"(fresh process unavailable: {e!r}) " + msg
+    msg2 = HISTORY_RAW.holds(ctx, h, fresh)
+    if msg2:
+        _CONFIRM["confirmed"] += 1
+        return msg2
+    # reported only if no history of this run fails on its own (see `_report_unconfirmed`)
+    ctx.tally("history:fails-only-after-earlier-histories")
+    _UNCONFIRMED.append((h, io, "state carried over from earlier calls of this run (the sequence passes in a fresh "
+                                "process, so this replay alone does not fail): " + msg))
+    return None
+
+
+_UNCONFIRMED = []
+
+
+def _report_unconfirmed(ctx):
+    if _UNCONFIRMED and not _CONFIRM["confirmed"]:
+        h, io, msg = _UNCONFIRMED[0]
+        ctx.fail("property", "buffer_history", inp=h, impl=io, detail=msg)
+    del _UNCONFIRMED[:]
 
 
 def _valid_input(inp):
@@ -486,17 +929,23 @@ def _valid_input(inp):
         return False
 
 
+def _to_model_closed(inp):
+    return {"g": inp["g"], **_model_call(inp)}
+
+
 OPS = {
-    "buffer_closed": Op("buffer_closed", _impl_closed, holds=_safe(_holds_closed), model_op="buffer",
-                        shrink=True, valid=_valid_input),
-    "buffer_closed_free": Op("buffer_closed_free", _impl_closed, compare=_cmp_closed_free, mode="round-once",
-                             model_op="buffer"),
-    "buffer_shapely": Op("buffer_shapely", _impl_shapely, to_model=_to_model_shapely, compare=_cmp_shapely,
+    "buffer_closed": Op("buffer_closed", _voidable(_impl_closed), to_model=_to_model_closed, compare=_cmp_closed,
+                        holds=_safe(_holds_closed), model_op="buffer", shrink=True, valid=_valid_input),
+    "buffer_closed_free": Op("buffer_closed_free", _voidable(_impl_closed), to_model=_to_model_closed,
+                             compare=_cmp_closed_free, mode="round-once", model_op="buffer"),
+    "buffer_shapely": Op("buffer_shapely", _voidable(_impl_shapely), to_model=_to_model_shapely, compare=_cmp_shapely,
                          holds=_safe(_holds_shapely), mode="tolerance", model_op="buffer"),
-    "monotone_shapely": Op("monotone_shapely", _impl_monotone, to_model=lambda i: {"g": i["g"]},
+    "buffer_history": Op("buffer_history", HISTORY_RAW.impl, holds=_safe(_holds_history), compare=lambda i, a, b: None,
+                         mode="tolerance", no_model=True, nontrivial=HISTORY_RAW.nontrivial),
+    "monotone_shapely": Op("monotone_shapely", _voidable(_impl_monotone), to_model=lambda i: {"g": i["g"]},
                            compare=lambda i, a, b: None, holds=_safe(_holds_monotone), determined=False,
                            mode="tolerance", model_op="valid"),
-    "pipeline_args": Op("pipeline_args", _impl_pipeline, to_model=_to_model_pipeline, compare=_cmp_pipeline,
+    "pipeline_args": Op("pipeline_args", _voidable(_impl_pipeline), to_model=_to_model_pipeline, compare=_cmp_pipeline,
                         holds=_safe(_holds_pipeline), determined=False, mode="tolerance",
                         nontrivial=lambda i, o: bool(isinstance(o, dict) and o.get("val"))),
     "valid": Op("valid", _impl_valid),
@@ -517,9 +966,12 @@ def _fact(detail, key):
 def _m_approx_shortfall(f, m):
     """round caps are polygons and GEOS offsets carry noise: a side extends by a little less than the buffer"""
     d = f.detail
-    sf = _num(d, "max_shortfall")
+    sf, osf = _num(d, "max_shortfall"), _num(d, "offcap_shortfall")
     return (f.kind == "property" and sf is not None and _fact(d, "zero_buffer") == "False"
-            and 0 < sf <= float(Fraction(m["max_shortfall"])))
+            and 0 < sf <= float(Fraction(m["max_shortfall"]))
+            # only where a round cap is: a side whose extreme is attained at a vertex that is not the end of an open
+            # line is drawn by a mitre join / an axis-aligned circle and reaches the buffer up to offset-curve noise
+            and osf is not None and osf <= float(Fraction(m.get("max_offcap_shortfall", "0"))))
 
 
 def _m_zero_buffer(f, m):
@@ -585,6 +1037,49 @@ def _table_obligations(ctx):
     else:
         ctx.obligation("max_frequency", f"example : SE.MAXF = {st.lit(Fraction(mf))} := by decide +kernel\n",
                        {"op": "buffer_closed"})
+    _signature_obligation(ctx)
+
+
+def _signature_obligation(ctx):
+    """the positional-signature table of `buffer_geometry` (inspect.signature): the parameters after `geometry`
+    that a caller can bind by position, with their defaults, must start with the model's `bufferSig`; extra
+    keywords must be accepted (`**kwargs`).  `C11_call_binding` then says what every call shape binds to."""
+    import inspect
+    from .. import symtrace as st
+    import soundevent.geometry as sgeo
+    fn = getattr(sgeo, "buffer_geometry", None)
+    meta = {"op": "buffer_closed"}
+    try:
+        params = list(inspect.signature(fn).parameters.values())
+        P = inspect.Parameter
+        if any(q.kind == P.VAR_POSITIONAL for q in params):
+            # a generic wrapper (`*args, **kwargs`): there is no table to read; how the buffers bind is then judged by the
+            # call-shape correspondence alone (every shape against `boundBuffers bufferSig`)
+            ctx.tally("call_signature:opaque-wrapper")
+            return
+        first = params[0]
+        rest = [q for q in params[1:] if q.kind in (P.POSITIONAL_ONLY, P.POSITIONAL_OR_KEYWORD)]
+        kwonly = [q.name for q in params if q.kind == P.KEYWORD_ONLY]
+        table = []
+        for q in rest:
+            d = q.default
+            if len(table) < 2 and (isinstance(d, bool) or not isinstance(d, (int, float)) or q.kind != P.POSITIONAL_OR_KEYWORD):
+                raise TypeError(f"parameter {q.name} has no numeric default or is positional-only")
+            table.append((q.name, Fraction(d) if isinstance(d, (int, float)) and not isinstance(d, bool) else Fraction(0)))
+        if first.kind not in (P.POSITIONAL_ONLY, P.POSITIONAL_OR_KEYWORD):
+            raise TypeError("the geometry cannot be passed by position")
+        if not any(q.kind == P.VAR_KEYWORD for q in params):
+            raise TypeError("extra keyword arguments (options for shapely.buffer) are no longer accepted")
+        if {"time_buffer", "freq_buffer"} & set(kwonly):
+            raise TypeError("a buffer became keyword-only")
+    except Exception as e:  # noqa: BLE001 - the signature changed shape: a broken obligation, never a crash
+        ctx.pre_failed.append("call_signature")
+        ctx.fail("obligation", "call_signature", detail=f"signature of buffer_geometry could not be tabulated: {e!r}", extra=meta)
+        return
+    lean = "[" + ", ".join(f'("{n}", {st.lit(d)})' for n, d in table) + "]"
+    # C11_signature_table: whatever optional parameters follow, the head of the table decides how the buffers bind
+    ctx.obligation("call_signature",
+                   f"example : ({lean} : SE.Buf.Sig).take 2 = SE.Buf.bufferSig := by decide +kernel\n", meta)
 
 
 # ---------------------------------------------------------------- tie 1b: symbolic traces
@@ -594,6 +1089,9 @@ class _Built:
     def __init__(self, tag, coords):
         self.type = tag
         self.coordinates = coords
+
+    def model_copy(self, **kw):     # a result handed out of (or into) a cache as a copy
+        return self
 
 
 class _CtorMeta(type):
@@ -633,9 +1131,34 @@ class _DataProxy:
 
 
 class _StubGeometry:
+    """the argument of a traced call; what code that keys a cache by the whole geometry may ask of it is there too"""
+
     def __init__(self, type, coordinates):
         self.type = type
         self.coordinates = coordinates
+
+    def model_dump(self, **kw):
+        return {"type": self.type, "coordinates": self.coordinates}
+
+    def model_dump_json(self, **kw):
+        return json.dumps(self.model_dump(), default=repr)
+
+    def model_copy(self, **kw):
+        return self
+
+
+class _TolerantJson:
+    """`json` as the traced code sees it: symbolic numbers serialise as their terms (cache keys)"""
+
+    def __init__(self, real):
+        self._real = real
+
+    def __getattr__(self, name):
+        return getattr(self._real, name)
+
+    def dumps(self, obj, *a, **kw):
+        kw.setdefault("default", repr)
+        return self._real.dumps(obj, *a, **kw)
 
 
 class _Marker:
@@ -692,12 +1215,50 @@ _WITNESS = {"TimeStamp": (["t"], "(.timeStamp t)"), "TimeInterval": (["s", "e"],
             "MultiLineString": ([], "(.multiLineString [])"), "MultiPolygon": ([], "(.multiPolygon [])")}
 
 
+def _module_state(mod):
+    """the mutable containers (and memoising functions) at the top level of a module"""
+    return {n: copy.copy(v) for n, v in list(vars(mod).items())
+            if isinstance(v, (dict, list, set)) and not n.startswith("__")}
+
+
+def _stateless(mod, thunk):
+    """the path-exhaustive tracer replays `thunk` once per path and needs every replay to start from the same
+    state: module-level containers (a cache) are put back to what they held before the trace, memoising functions
+    are cleared; a trace therefore describes a call in a fresh process (later calls: histories, purity monitors)"""
+    snap = _module_state(mod)
+
+    def wrapped():
+        for n, v in snap.items():
+            cur = getattr(mod, n, None)
+            if type(cur) is type(v):
+                if isinstance(cur, list):
+                    cur[:] = v
+                else:
+                    cur.clear()
+                    cur.update(v)
+        for v in list(vars(mod).values()):
+            cc = getattr(v, "cache_clear", None)
+            if callable(cc):
+                try:
+                    cc()
+                except Exception:  # noqa: BLE001
+                    pass
+        return thunk()
+    return wrapped
+
+
 def _symbolic_ties(ctx):
     import soundevent.geometry.operations as ops
     from soundevent import data as real_data
     tb, fb = Sym.var("tb"), Sym.var("fb")
     sy = {n: Sym.var(n) for n in ["t", "s", "l", "e", "h", "f"]}
-    orig = {n: getattr(ops, n, None) for n in ("data", "geometry_to_shapely", "buffer_shapely_geometry")}
+    orig = {n: getattr(ops, n, None) for n in ("data", "geometry_to_shapely", "buffer_shapely_geometry", "json")}
+    # symbolic numbers may be used as (parts of) dictionary keys while these traces run: a cache keyed by the whole
+    # input is then traced like any other code (a hit is decided by the path oracle through `==`)
+    saved_hash = Sym.__hash__
+    Sym.__hash__ = lambda self: hash(self.e)
+    if orig["json"] is not None:
+        ops.json = _TolerantJson(orig["json"])
     ops.data = _DataProxy(real_data)
     ops.geometry_to_shapely = lambda g: _Marker(g)
     ops.buffer_shapely_geometry = (lambda shp, time_buffer=0, freq_buffer=0, **kw:
@@ -716,7 +1277,7 @@ def _symbolic_ties(ctx):
         ]
         for (fname, V, thunk, mterm), ty in zip(closed, CLOSED):
             name = "ext_" + fname
-            _tie_valid(ctx, name, thunk, V, mterm, _WITNESS[ty][1], {"op": "buffer_closed"})
+            _tie_valid(ctx, name, _stateless(ops, thunk), V, mterm, _WITNESS[ty][1], {"op": "buffer_closed"})
         # guard + dispatch of buffer_geometry, for every type tag
         for ty in gen_geom.TYPES:
             cv, witness = _WITNESS[ty]
@@ -725,16 +1286,17 @@ def _symbolic_ties(ctx):
             name = "ext_buffer_geometry_" + ty
             if ty in CLOSED:
                 _tie_valid(ctx, name,
-                           lambda ty=ty, coords=coords: ops.buffer_geometry(_StubGeometry(ty, coords), time_buffer=tb, freq_buffer=fb),
+                           _stateless(ops, lambda ty=ty, coords=coords: ops.buffer_geometry(_StubGeometry(ty, coords), time_buffer=tb, freq_buffer=fb)),
                            cv + ["tb", "fb"], f"SE.Buf.bufferGeometry {_LIB} {witness} tb fb", witness, {"op": "buffer_closed"})
                 continue
             symx.sym_tie(ctx, name,
-                         lambda ty=ty, coords=coords: ops.buffer_geometry(_StubGeometry(ty, coords), time_buffer=tb, freq_buffer=fb),
+                         _stateless(ops, lambda ty=ty, coords=coords: ops.buffer_geometry(_StubGeometry(ty, coords), time_buffer=tb, freq_buffer=fb)),
                          cv + ["tb", "fb"], "Option SE.Geom",
                          f"SE.Buf.bufferGeometry {_LIB} {witness} tb fb", _geom_leaf,
                          tactic=_tactic(name),
                          meta={"op": "buffer_shapely"})
     finally:
+        Sym.__hash__ = saved_hash
         for n, v in orig.items():
             if v is not None:
                 setattr(ops, n, v)
@@ -1015,9 +1577,8 @@ def shapely_special_geometries():
 
 
 def _extent(gj):
-    from soundevent.geometry import compute_bounds
-    b = compute_bounds(gen_geom.to_data(gj))
-    return b[2] - b[0], b[3] - b[1]
+    b = _bounds_of(gj)
+    return float(b[2] - b[0]), float(b[3] - b[1])
 
 
 def _buffers_for(rng, gj, decades=(-2, 2)):
@@ -1041,7 +1602,7 @@ def shapely_cases(rng, n):
         tmax, fmax, k = scales[(i // 6) % len(scales)]
         g = _norm(gen_geom.gen_valid(rng, ty, tmax=tmax, fmax=fmax, k=k))
         i += 1
-        if ty in ("Polygon", "MultiPolygon") and not gen_geom.is_simple(g):
+        if ty in ("Polygon", "MultiPolygon") and not _is_simple(g):
             continue
         geoms.append(g)
     for g in geoms:
@@ -1063,7 +1624,7 @@ def tiny_buffer_cases(rng, n):
     still resolves them"""
     for i in range(n):
         g = _norm(gen_geom.gen_valid(rng, SHAPELY[i % 6], tmax=8.0, fmax=8.0, k=3))
-        if g["type"] in ("Polygon", "MultiPolygon") and not gen_geom.is_simple(g):
+        if g["type"] in ("Polygon", "MultiPolygon") and not _is_simple(g):
             continue
         tb = Fraction(rng.randint(1, 1 << 10), 1 << rng.choice([20, 24, 28, 33]))
         fb = Fraction(rng.randint(1, 1 << 10), 1 << rng.choice([20, 24, 28, 33]))
@@ -1079,7 +1640,7 @@ def zero_buffer_cases(rng, n):
     geoms = shapely_special_geometries()
     for i in range(n):
         g = geoms[i % len(geoms)] if i < len(geoms) else _norm(gen_geom.gen_valid(rng, SHAPELY[i % 6], tmax=8.0, fmax=8.0, k=3))
-        if g["type"] in ("Polygon", "MultiPolygon") and not gen_geom.is_simple(g):
+        if g["type"] in ("Polygon", "MultiPolygon") and not _is_simple(g):
             continue
         tb, fb = _buffers_for(rng, g, decades=(-1, 1))
         which = i % 3
@@ -1101,7 +1662,7 @@ def monotone_zero_cases(rng, n):
     C11_pipeline_monotone_ideal); small coordinates, where 1e-9 is still resolved"""
     for i in range(n):
         g = _norm(gen_geom.gen_valid(rng, SHAPELY[i % 6], tmax=8.0, fmax=8.0, k=3))
-        if g["type"] in ("Polygon", "MultiPolygon") and not gen_geom.is_simple(g):
+        if g["type"] in ("Polygon", "MultiPolygon") and not _is_simple(g):
             continue
         tb, fb = _buffers_for(rng, g, decades=(-1, 1))
         up = rng.choice([Fraction(0), Fraction(1, 10 ** 9), Fraction(1, 1 << 20), Fraction(1, 8), Fraction(2)])
@@ -1110,6 +1671,223 @@ def monotone_zero_cases(rng, n):
             yield {"g": g, "tb": "0", "fb": rat(fb), "tb2": rat(up), "fb2": rat(fb * k)}
         else:
             yield {"g": g, "tb": rat(tb), "fb": "0", "tb2": rat(tb * k), "fb2": rat(up)}
+
+
+def _is_simple(gj):
+    """OGC validity of a polygonal geometry (the property's quantifier: non-self-intersecting), asked of shapely"""
+    try:
+        return bool(_shp(gj).is_valid)
+    except Exception:  # noqa: BLE001
+        return False
+
+
+# sizes at which an implementation could switch strategy (> 16, > 256, >= 1024 vertices of the input or of the
+# buffered outline, which has about twice as many as a line and as many as a ring, plus the caps), each with its
+# neighbours, and the sizes in between
+SIZES = [15, 16, 17, 18, 33, 64, 100, 112, 120, 126, 127, 128, 129, 130, 131, 140, 200, 254, 255, 256, 257, 258, 300,
+         511, 512, 513, 700, 1000, 1023, 1024, 1025, 1300, 2000]
+SIZES_QUICK = [16, 17, 64, 112, 127, 128, 129, 130, 131, 200, 255, 256, 257, 300, 512, 513, 1000, 1024, 1025, 2000]
+DENSE_KINDS = ("band", "contour", "ellipse", "closed_contour", "multi_contour", "multi_band", "multipoint")
+MAX_MULTIPOINT = 520          # GEOS unions one circle per point: seconds per call beyond this
+
+
+def _q(x, k):
+    return Fraction(round(x * (1 << k)), 1 << k)
+
+
+def dense_geometry(rng, kind, n):
+    """a smooth, densely sampled shape with about n vertices whose extremes lie on shallow parts of the outline:
+    a whistle contour (line), the band around it (polygon), an ellipse (polygon / closed line), two of them
+    (multi-types), the samples alone (multi-point); times on the 2^-12 grid, frequencies on the 2^-4 grid"""
+    t0 = rng.choice([0.0, 0.5, 1.0, 30.0])
+    T = rng.choice([0.5, 2.0, 8.0])
+    f0 = rng.choice([800.0, 6000.0, 40000.0])
+    a = f0 * rng.choice([0.05, 0.2])
+    k = rng.choice([0.5, 1.0, 1.0, 3.0])
+
+    def contour(n, t0, T, up=True):
+        return [[_q(t0 + T * i / (n - 1), 12), _q(f0 + (a if up else -a) * math.sin(k * math.pi * i / (n - 1)), 4)] for i in range(n)]
+
+    def band(n, t0, T):
+        m = max(3, n // 2)
+        upper = contour(m, t0, T)
+        lower = [[p[0], p[1] - _q(a * (1.0 + 0.4 * math.sin(math.pi * i / (m - 1))), 4)] for i, p in enumerate(upper)]
+        ring = upper + lower[::-1]
+        return [ring + [ring[0]]]
+
+    def ellipse(n, ct, cf, rt, rf):
+        ring = [[_q(ct + rt * math.cos(2 * math.pi * i / n), 12), _q(cf + rf * math.sin(2 * math.pi * i / n), 4)] for i in range(n)]
+        return ring + [ring[0]]
+
+    if kind == "contour":
+        return _g("LineString", contour(n, t0, T))
+    if kind == "band":
+        return _g("Polygon", band(n, t0, T))
+    if kind == "ellipse":
+        return _g("Polygon", [ellipse(n, t0 + T, f0, T, a)])
+    if kind == "closed_contour":
+        return _g("LineString", ellipse(n, t0 + T, f0, T, a))
+    if kind == "multi_contour":
+        return _g("MultiLineString", [contour(max(2, n // 2), t0, T), contour(max(2, n - n // 2), t0 + 2 * T, T, up=False)])
+    if kind == "multi_band":
+        return _g("MultiPolygon", [band(max(6, n // 2), t0, T), band(max(6, n - n // 2), t0 + 2 * T, T)])
+    if kind == "multipoint":
+        return _g("MultiPoint", contour(min(n, MAX_MULTIPOINT), t0, T))
+    raise ValueError(kind)
+
+
+def dense_cases(rng, sizes, kinds_per_size):
+    """many-vertex geometries x buffers between 0.3 % and 50 % of their extent (the buffered outline stays smooth)"""
+    i = 0
+    for n in sizes:
+        for j in range(kinds_per_size):
+            kind = DENSE_KINDS[(i + j) % len(DENSE_KINDS)]
+            g = _norm(dense_geometry(rng, kind, n))
+            if g["type"] in ("Polygon", "MultiPolygon") and not _is_simple(g):
+                continue
+            tb, fb = _buffers_for(rng, g, decades=(-2.5, -0.3))
+            yield _case(g, tb, fb)
+        i += kinds_per_size
+
+
+def closed_boundary_cases():
+    """tolerance-sized offsets (2^-20 .. 2^-40, and the smallest positive floats) on both sides of every comparison
+    the closed forms and the guard make, at small and large magnitudes, and the exact ties; all sums stay exact
+    except where marked `free` (one rounding, judged in round-once mode)"""
+    eps = [Fraction(1, 1 << 20), Fraction(1, 1 << 30), Fraction(1, 1 << 40)]
+    tiny = [Fraction(1, 1 << 40), Fraction(1, 1 << 60), Fraction(1e-12), Fraction(5e-324), Fraction(1e-9)]
+    samples = [_g("TimeStamp", 1), _g("TimeInterval", [1, 2]), _g("BoundingBox", [1, 10, 2, 20]), _g("Point", [1, 10]),
+               _g("LineString", [[1, 10], [2, 20]]), _g("Polygon", [[[1, 10], [2, 10], [2, 20], [1, 10]]]),
+               _g("MultiPoint", [[1, 10]]), _g("MultiLineString", [[[1, 10], [2, 20]]]),
+               _g("MultiPolygon", [[[[1, 10], [2, 10], [2, 20], [1, 10]]]])]
+    # the guard: a buffer just below zero is rejected, zero and just above are not -- for every type
+    for g in samples:
+        g = _norm(g)
+        for d in tiny:
+            for tb, fb in ((-d, 1), (1, -d), (-d, -d), (-d, 0), (0, -d)):
+                yield _case(g, tb, fb)
+            if g["type"] in CLOSED:       # just above zero: accepted; `t - d` is rounded once (judged in round-once mode)
+                for tb, fb in ((d, 1), (1, d), (d, d), (0, d), (d, 0)):
+                    yield {**_case(g, tb, fb), "free": True}
+    # the clamp at time 0: start - tb just below, at and just above 0 (small and large times)
+    for t in (1, 4096, 10 ** 7):
+        for d in eps + [0]:
+            if t * (1 << 40) * 2 >= (1 << 52) and d and d < Fraction(1, 1 << 20):
+                continue
+            for sgn in (1, -1):
+                tb = t + sgn * d
+                yield _case(_g("TimeStamp", t), tb, 0)
+                yield _case(_g("TimeInterval", [t, t + 1]), tb, 1)
+                yield _case(_g("BoundingBox", [t, 10, t + 1, 20]), tb, 1)
+    # the clamps at frequency 0 and MAX_FREQUENCY: low - fb and high + fb just inside, at and just beyond the edge
+    for a in (1, 1024, 10 ** 6):
+        for d in [Fraction(1, 1 << 20), Fraction(1, 1 << 28), 0]:
+            for sgn in (1, -1):
+                fb = a + sgn * d
+                yield _case(_g("BoundingBox", [1, a, 2, M - a]), 1, fb)       # both edges at once
+                yield _case(_g("BoundingBox", [1, a, 2, a]), 0, fb)
+                yield _case(_g("BoundingBox", [0, M - a, 0, M - a]), 0, fb)
+    # interplay: a geometry starting at (or a hair after) time 0 x tiny / small time buffers x zero / tiny / unit
+    # frequency buffers -- every combination, for the three closed types
+    for s0 in (0, Fraction(1, 1 << 41), Fraction(1, 1 << 21)):
+        for tb in (Fraction(1, 1 << 40), Fraction(1, 1 << 20), Fraction(1, 1 << 11), Fraction(1, 2)):
+            for fb in (0, Fraction(1, 1 << 28), 1):
+                yield _case(_g("TimeStamp", s0), tb, fb)
+                yield _case(_g("TimeInterval", [s0, s0 + 1]), tb, fb)
+                yield _case(_g("BoundingBox", [s0, Fraction(1, 1 << 29), s0 + 1, 20]), tb, fb)
+                yield _case(_g("BoundingBox", [s0, 0, s0, M]), tb, fb)
+    # degenerate boxes / intervals sitting on the edges, buffers equal to the whole domain
+    for g in (_g("BoundingBox", [0, 0, 0, 0]), _g("BoundingBox", [0, M, 0, M]), _g("BoundingBox", [0, 0, 0, M]),
+              _g("TimeInterval", [0, 0]), _g("TimeStamp", 0)):
+        for tb, fb in ((0, 0), (0, M), (M, 0), (Fraction(1, 1 << 40), Fraction(1, 1 << 28)), (M, M)):
+            yield _case(g, tb, fb)
+
+
+def lattice_cases():
+    """every lattice point of two non-dyadic buffer axes (0.01 s, 0.1 Hz steps) against coordinates on such lattices"""
+    for i in range(101):
+        for tb in (i * 0.01, i / 100):
+            yield {"g": {"type": "TimeStamp", "coordinates": rat(0.29)}, "tb": rat(tb), "fb": "0"}
+            yield {"g": {"type": "TimeInterval", "coordinates": [rat(0.58), rat(0.59)]}, "tb": rat(tb), "fb": "0"}
+            yield {"g": {"type": "BoundingBox", "coordinates": [rat(0.3), rat(1.1), rat(0.7), rat(float(M) - 0.3)]},
+                   "tb": rat(tb), "fb": rat(i * 0.1)}
+
+
+_VARIANT_GEOMS = {
+    "TimeStamp": [2], "TimeInterval": [[1, 3]], "BoundingBox": [[1, 2, 3, 7]], "Point": [[2, 5]],
+    "LineString": [[[1, 2], [2, 6], [4, 3]]], "Polygon": [[[[1, 2], [5, 2], [3, 7], [1, 2]]]],
+    "MultiPoint": [[[1, 2], [3, 5]]], "MultiLineString": [[[[1, 3], [2, 4]], [[4, 3], [5, 1]]]],
+    "MultiPolygon": [[[[[0, 0], [2, 0], [1, 3], [0, 0]]], [[[4, 1], [6, 1], [5, 3], [4, 1]]]]],
+}
+_NUM_VALUES = {"float": [(Fraction(3, 8), Fraction(5, 2)), (0, Fraction(5, 2)), (Fraction(3, 8), 0)],
+               "np64": [(Fraction(3, 8), Fraction(5, 2)), (0, Fraction(1, 2)), (Fraction(7, 4), 0)],
+               "np32": [(Fraction(1, 2), Fraction(3, 4)), (0, Fraction(3, 4)), (Fraction(1, 2), 0)],
+               "int": [(3, 5), (0, 7), (3, 0)], "npint": [(3, 5), (0, 7), (5, 0)], "bool": [(1, 1), (0, 1), (1, 0)]}
+
+
+def variant_cases(rng, full=False):
+    """the same calls written in every way a caller may: (type x call shape x number representation) and
+    (type x construction path x zero / positive buffer pattern), plus random combinations"""
+    for ty in gen_geom.TYPES:
+        g = _norm(_g(ty, _VARIANT_GEOMS[ty][0]))
+        for sh in SHAPES:
+            for i, nt in enumerate(NUMS):
+                nf = NUMS[(i + SHAPES.index(sh)) % len(NUMS)]
+                for j, ((tb, _), (_, fb)) in enumerate(zip(_NUM_VALUES[nt], _NUM_VALUES[nf])):
+                    if not full and j != (i + SHAPES.index(sh)) % 3:
+                        continue
+                    yield {**_case(g, tb, fb), "how": {"shape": sh, "nt": nt, "nf": nf}}
+        for k, path in enumerate(PATHS):
+            for j, (tb, fb) in enumerate(_NUM_VALUES["float"]):
+                yield {**_case(g, tb, fb), "how": {"shape": SHAPES[(k + j) % len(SHAPES)], "path": path}}
+    for i in range(120 if not full else 1200):
+        ty = gen_geom.TYPES[i % 9]
+        g = _norm(gen_geom.gen_valid(rng, ty, tmax=8.0, fmax=8.0, k=3))
+        if ty in ("Polygon", "MultiPolygon") and not _is_simple(g):
+            continue
+        nt, nf = rng.choice(NUMS), rng.choice(NUMS)
+        tb, fb = rng.choice(_NUM_VALUES[nt])[0], rng.choice(_NUM_VALUES[nf])[1]
+        yield {**_case(g, tb, fb), "how": {"shape": rng.choice(SHAPES), "nt": nt, "nf": nf, "path": rng.choice(PATHS)}}
+
+
+def _h_variants(x, rng):
+    """neighbours of a call: the same geometry with other buffers / a zero buffer / written another way / with
+    options for shapely.buffer, and another geometry with the same buffers"""
+    tb, fb = frac(x["tb"]), frac(x["fb"])
+    out = [{**x, "tb": rat(tb * 2), "fb": rat(fb / 2)}, {**x, "tb": "0"}, {**x, "fb": "0"}, {**x, "tb": rat(tb + 1), "fb": rat(fb + 2)},
+           {**x, "how": {"shape": rng.choice(SHAPES), "nt": rng.choice(NUMS), "nf": rng.choice(NUMS), "path": rng.choice(PATHS)}}]
+    for o in rng.sample(OPTIONS, 3):
+        out.append({**{k: v for k, v in x.items() if k != "how"}, "opts": o})
+    ty = rng.choice(gen_geom.TYPES)
+    out.append({**x, "g": _norm(_g(ty, _VARIANT_GEOMS[ty][0]))})
+    return out
+
+
+def history_leak_grid(full=False):
+    """a call with an option for shapely.buffer, then plain calls: the option may not show in them"""
+    base = {ty: _case(_norm(_g(ty, _VARIANT_GEOMS[ty][0])), Fraction(1, 2), Fraction(3, 4)) for ty in gen_geom.TYPES}
+    i = 0
+    for o in OPTIONS:
+        for b in SHAPELY:
+            firsts = gen_geom.TYPES if full else [gen_geom.TYPES[i % 9], SHAPELY[i % 6]]
+            for a in firsts:
+                yield {"seq": [{"inp": {**base[a], "opts": o}}, {"inp": base[b]}, {"inp": base["BoundingBox"]}]}
+            i += 1
+
+
+def history_cases(rng, n, dense=2):
+    cases = []
+    for ty in gen_geom.TYPES:
+        cases.append(_case(_norm(_g(ty, _VARIANT_GEOMS[ty][0])), Fraction(1, 2), Fraction(3, 4)))
+        for _ in range(3):
+            g = _norm(gen_geom.gen_valid(rng, ty, tmax=8.0, fmax=8.0, k=3))
+            if ty in ("Polygon", "MultiPolygon") and not _is_simple(g):
+                continue
+            tb, fb = _buffers_for(rng, g, decades=(-1, 0.5))
+            cases.append(_case(g, tb, fb))
+    for c in list(dense_cases(rng, [140, 300], dense)):
+        cases.append(c)
+    return history.sequences(rng, cases, n, variants=_h_variants, reuse_hows=H_REUSE, poison=True)
 
 
 def valid_cases(rng, results, n):
@@ -1197,6 +1975,59 @@ def _closed_stage(ctx):
     ctx.run_cases(OPS["buffer_closed_free"], closed_free_cases(ctx.rng, ctx.budget(3000, 30000)))
 
 
+def _boundary_stage(ctx):
+    bc = list(closed_boundary_cases())
+    ctx.tally("closed:boundary-offsets", sum(1 for c in bc if c["g"]["type"] in CLOSED))
+    ctx.run_cases(OPS["buffer_closed"], [c for c in bc if c["g"]["type"] in CLOSED and not c.get("free")])
+    ctx.run_cases(OPS["buffer_closed_free"], [{k: v for k, v in c.items() if k != "free"} for c in bc if c.get("free")])
+    ctx.run_cases(OPS["buffer_shapely"], [c for c in bc if c["g"]["type"] in SHAPELY])
+    ctx.exhaustive["comparison boundaries"] = (f"{len(bc)} cases: buffers -d, 0, +d for d in 2^-40, 2^-60, 1e-12, 1e-9, 5e-324 on all nine "
+                                               "types (guard); start - tb, low - fb, high + fb at 0 / MAX_FREQUENCY -+ 2^-20..2^-40 at "
+                                               "magnitudes 1, 4096, 1e6, 1e7; degenerate boxes on the edges")
+    lc = list(lattice_cases())
+    ctx.run_cases(OPS["buffer_closed_free"], lc)
+    ctx.exhaustive["non-dyadic lattices"] = f"{len(lc)} cases: every time buffer k*0.01 and k/100, k = 0..100 (frequency buffers k*0.1)"
+
+
+def _variants_stage(ctx):
+    vc = list(variant_cases(ctx.rng, full=ctx.thorough()))
+    for c in vc:
+        h = c["how"]
+        ctx.tally("call:" + h.get("shape", "kw"))
+        ctx.tally("number:" + h.get("nt", "float"))
+        ctx.tally("path:" + str(h.get("path", "validate")))
+    ctx.run_cases(OPS["buffer_closed"], [c for c in vc if c["g"]["type"] in CLOSED])
+    sh = [c for c in vc if c["g"]["type"] in SHAPELY]
+    ctx.run_cases(OPS["buffer_shapely"], sh)
+    ctx.run_cases(OPS["pipeline_args"], sh)
+    ctx.exhaustive["call shapes"] = (f"{len(vc)} cases: nine types x call shapes {list(SHAPES)} x number representations {list(NUMS)}; "
+                                     f"nine types x construction paths {list(PATHS)} x (both / time only / frequency only) buffers")
+
+
+def _dense_stage(ctx):
+    sizes = SIZES if ctx.thorough() else SIZES_QUICK
+    dc = list(dense_cases(ctx.rng, sizes, ctx.budget(2, 7)))
+    for c in dc:
+        ctx.tally("dense:" + c["g"]["type"])
+    ctx.run_cases(OPS["buffer_shapely"], dc)
+    ctx.run_cases(OPS["pipeline_args"], dc)
+    mc = [{"g": c["g"], "tb": c["tb"], "fb": c["fb"], "tb2": rat(frac(c["tb"]) * 2), "fb2": rat(frac(c["fb"]) * Fraction(3, 2))}
+          for c in dc[::ctx.budget(4, 2)]]
+    ctx.run_cases(OPS["monotone_shapely"], mc)
+    ctx.exhaustive["vertex counts"] = f"{len(dc)} dense geometries with {sizes} vertices ({ctx.budget(2, 7)} of {list(DENSE_KINDS)} per size)"
+
+
+def _history_stage(ctx):
+    grid = list(history_leak_grid(full=ctx.thorough()))
+    hs = grid + history_cases(ctx.rng, ctx.budget(150, 1500))
+    for h in hs:
+        for st in h["seq"]:
+            ctx.tally("history:" + (st.get("reuse") or "fresh") + ("+poison" if st.get("poison") else "")
+                      + ("+options" if st["inp"].get("opts") else ""))
+    ctx.run_cases(OPS["buffer_history"], hs)
+    _report_unconfirmed(ctx)
+
+
 def _shapely_stage(ctx):
     cases = list(shapely_cases(ctx.rng, ctx.budget(2400, 24000)))
     for c in cases:
@@ -1220,20 +2051,40 @@ def _monotone_stage(ctx):
     ctx.run_cases(OPS["monotone_shapely"], zc)
 
 
+def _timed(ctx, name, fn, *a):
+    import time
+    t0 = time.time()
+    try:
+        return ctx.stage(name, fn, *a)
+    finally:
+        ctx.tally("seconds:" + name, round(time.time() - t0, 1))
+
+
 def run(ctx):
-    ctx.stage("tables", _table_obligations, ctx)
-    ctx.stage("symbolic-ties", _symbolic_ties, ctx)
-    ctx.stage("symbolic-pipeline", _pipeline_ties, ctx)
-    ctx.stage("discharge", ctx.discharge, ["SoundeventModel.Buffer", "SoundeventModel.Tactics"])
-    ctx.stage("corpus", ctx.run_corpus, OPS)
-    ctx.stage("closed-forms", _closed_stage, ctx)
-    ctx.stage("shapely-pipeline", _shapely_stage, ctx)
-    ctx.stage("shapely-monotone", _monotone_stage, ctx)
+    _timed(ctx, "tables", _table_obligations, ctx)
+    _timed(ctx, "symbolic-ties", _symbolic_ties, ctx)
+    _timed(ctx, "symbolic-pipeline", _pipeline_ties, ctx)
+    _timed(ctx, "discharge", ctx.discharge, ["SoundeventModel.Buffer", "SoundeventModel.Tactics"])
+    _timed(ctx, "corpus", ctx.run_corpus, OPS)
+    _timed(ctx, "closed-forms", _closed_stage, ctx)
+    _timed(ctx, "boundaries", _boundary_stage, ctx)
+    _timed(ctx, "shapely-pipeline", _shapely_stage, ctx)
+    _timed(ctx, "dense", _dense_stage, ctx)
+    _timed(ctx, "call-variants", _variants_stage, ctx)
+    _timed(ctx, "shapely-monotone", _monotone_stage, ctx)
+    # last: calls with options for shapely.buffer happen only here, so nothing they might leave behind in the module
+    # under test can reach the cases of the other stages (whose replays are single calls)
+    _timed(ctx, "histories", _history_stage, ctx)
 
 
 def search(ctx, failures):
     """a tie broke: the exhaustive edge grid and a wide random stream of every operation"""
     ctx.stage("search-closed", lambda: ctx.run_cases(OPS["buffer_closed"], list(closed_grid_cases())
+                                                     + [c for c in closed_boundary_cases() if c["g"]["type"] in CLOSED and not c.get("free")]
+                                                     + [c for c in variant_cases(ctx.rng) if c["g"]["type"] in CLOSED]
                                                      + list(closed_random_cases(ctx.rng, 6000))))
     ctx.stage("search-shapely", lambda: ctx.run_cases(OPS["buffer_shapely"], list(shapely_cases(ctx.rng, 900))
-                                                      + list(zero_buffer_cases(ctx.rng, 120)) + list(tiny_buffer_cases(ctx.rng, 120))))
+                                                      + list(zero_buffer_cases(ctx.rng, 120)) + list(tiny_buffer_cases(ctx.rng, 120))
+                                                      + list(dense_cases(ctx.rng, SIZES_QUICK, 3))))
+    ctx.stage("search-histories", lambda: (ctx.run_cases(OPS["buffer_history"], list(history_leak_grid())
+                                                         + history_cases(ctx.rng, 100)), _report_unconfirmed(ctx)))
